@@ -346,6 +346,7 @@ def run(p, report, tier):
                 "(must value-flow through marker-propagating operations; shape-only constructors and NaN-erasing "
                 "reductions do not carry), otherwise older picks lose their exclusion", floor=2)
     check_carried_exclusion(p, report, funcs, facts)
+    report.analysed["nan_marked_reductions"] = check_nan_reductions(p, report, funcs, "R1.3")
 
     # ---- R1.3 ------------------------------------------------------------
     for f in funcs:
@@ -562,6 +563,105 @@ def check_carried_exclusion(p, report, funcs, facts, rule="R1.4c"):
                            f"{g.name} receives only the latest pick; on a path to the return at line {bad[0].lineno} its "
                            f"result is not computed from the values of `{q}` (shape-only / NaN-erasing operation), so "
                            "the exclusion of older picks is lost")
+    return n
+
+
+PLAIN_REDUCTIONS = {"sum", "max", "min", "mean", "argmax", "argmin", "std", "var", "prod", "median", "amax", "amin",
+                    "cumsum", "average", "ptp"}
+NAN_AWARE_REDUCTIONS = {"nansum", "nanmax", "nanmin", "nanmean", "nanargmax", "nanargmin", "nanstd", "nanvar",
+                        "nanmedian", "nanprod", "rand_argmax", "rand_argmin", "simple_batch"}
+
+
+def _nan_carriers(fnode, seeds):
+    """names holding (a row / copy / alias of) a NaN-marked array"""
+    names = set(seeds)
+    changed = True
+    while changed:
+        changed = False
+        for n in ast.walk(fnode):
+            if isinstance(n, ast.Assign) and len(n.targets) == 1 and isinstance(n.targets[0], ast.Name):
+                v = n.value
+                t = n.targets[0].id
+                if t in names:
+                    continue
+                src = None
+                if isinstance(v, (ast.Name, ast.Subscript)):
+                    src = base_name(v)
+                elif isinstance(v, ast.Call) and callname(v) in ("copy", "asarray", "array") :
+                    src = base_name(v.func.value) if isinstance(v.func, ast.Attribute) and not (
+                        isinstance(v.func.value, ast.Name) and v.func.value.id in ("np", "numpy")) else (
+                        base_name(v.args[0]) if v.args else None)
+                if src in names:
+                    names.add(t)
+                    changed = True
+    return names
+
+
+def check_nan_reductions(p, report, funcs, rule="R1.3"):
+    """A reduction applied to an array that carries NaN markers (NaN-filled
+    utilities, their rows and copies, also when received as a parameter from
+    such a caller) is NaN-aware."""
+    from . import c02
+    local_seeds = {}
+    for f in funcs:
+        ff = FnFacts(f)
+        _, seeds = c02.returned_utility_names(f.node, ff)
+        # the arrays a function returns as utilities (NaN = not selectable)
+        s = set()
+        for nm in seeds:
+            # only functions that return (indices, utilities) pairs or are row helpers of such
+            s.add(nm)
+        two = any(isinstance(n, ast.Return) and isinstance(n.value, ast.Tuple) and len(n.value.elts) >= 2
+                  for n in ast.walk(f.node))
+        local_seeds[id(f.node)] = s if two else set()
+    param_seeds = {id(f.node): set() for f in funcs}
+    for _ in range(3):
+        for f in funcs:
+            carriers = _nan_carriers(f.node, local_seeds[id(f.node)] | param_seeds[id(f.node)])
+            if not carriers:
+                continue
+            for c in ast.walk(f.node):
+                if not (isinstance(c, ast.Call) and isinstance(c.func, (ast.Name, ast.Attribute))):
+                    continue
+                r = p.resolve_expr(f.module, c.func)
+                if r is None or r[0] != "func" or id(r[1].node) not in param_seeds:
+                    continue
+                g = r[1]
+                params = g.params()
+                for i, a in enumerate(c.args):
+                    if i < len(params) and base_name(a) in carriers and isinstance(a, (ast.Name, ast.Subscript)):
+                        param_seeds[id(g.node)].add(params[i])
+                for k in c.keywords:
+                    if k.arg and base_name(k.value) in carriers and isinstance(k.value, (ast.Name, ast.Subscript)):
+                        param_seeds[id(g.node)].add(k.arg)
+    n = 0
+    for f in funcs:
+        carriers = _nan_carriers(f.node, local_seeds[id(f.node)] | param_seeds[id(f.node)])
+        if not carriers:
+            continue
+        for c in ast.walk(f.node):
+            if not isinstance(c, ast.Call):
+                continue
+            cn = callname(c)
+            if cn not in PLAIN_REDUCTIONS and cn not in NAN_AWARE_REDUCTIONS:
+                continue
+            ops = []
+            if isinstance(c.func, ast.Attribute) and not (isinstance(c.func.value, ast.Name) and c.func.value.id in ("np", "numpy")):
+                ops.append(c.func.value)
+            elif c.args:
+                ops.append(c.args[0])
+            for o in ops:
+                if isinstance(o, (ast.Name, ast.Subscript)) and base_name(o) in carriers:
+                    # a boolean-mask subscript that removes the NaN entries first is fine
+                    masked = isinstance(o, ast.Subscript) and any(
+                        isinstance(x, ast.Call) and callname(x) in ("isnan", "isfinite") for x in ast.walk(o.slice))
+                    ok = cn in NAN_AWARE_REDUCTIONS or masked
+                    n += 1
+                    report.add(rule, f.qual, f"reduction {site_id(c, 60)} over a NaN-marked array", f"{f.file}:{c.lineno}", ok,
+                               detail="NaN-aware" if ok else
+                               f"`{cn}` is not NaN-aware but its operand carries NaN markers (non-candidates / earlier "
+                               "picks): the result is NaN whenever such an entry exists, e.g. for index candidates "
+                               "that are a strict subset")
     return n
 
 
